@@ -119,12 +119,22 @@ def rule_cwd_taint(ctx, r):
         ("FileConfig.load(working_dir.joinpath('.gwfconf.json'))" in txt, "config-file", ".gwfconf.json next to the workflow file"),
         ("working_dir=str(working_dir)" in txt and "workflow_file=path" in txt, "context", "Context(working_dir=<workflow file dir>, workflow_file=<found path>)"),
     ]
-    for ok, key, desc in checks:
-        n += 1
-        r.check(ok, f"{main.module.relpath}::main::{key}", desc, f"cli.main no longer derives this from the found workflow file: {desc}", main.where)
+    def structural(_ctx, rr):
+        for ok, key, desc in checks:
+            rr.check(ok, f"{main.module.relpath}::main::{key}", desc, f"cli.main no longer derives this from the found workflow file: {desc}", main.where)
+    from .evalhelpers import cli_main_location_witness
+    ctx.structural_or_witness(r, structural, lambda: cli_main_location_witness(ctx), f"{main.module.relpath}::main", both=True)
+    n += len(checks)
     fw = idx.func("gwf.utils:find_workflow")
-    t = ast.unparse(fw.node)
-    r.check("current_dir = current_dir.parent" in t and "workflow_path.exists()" in t and "Path(current_dir.anchor)" in t, f"{fw.module.relpath}::{fw.qual}",
+    loops = [n for n in walk_no_nested(fw.node) if isinstance(n, ast.While)]
+    feat = False
+    for lp in loops:
+        ascends = any(isinstance(n, ast.Assign) and isinstance(n.value, ast.Attribute) and n.value.attr == "parent" and dotted(n.value.value) == dotted(n.targets[0]) for n in ast.walk(lp))
+        exists = any(isinstance(c.func, ast.Attribute) and c.func.attr == "exists" for c in _calls(lp))
+        root = any(isinstance(n, ast.Attribute) and n.attr == "anchor" for n in ast.walk(lp))
+        nf = any(isinstance(n, ast.Raise) and "FileNotFoundError" in ast.unparse(n) for n in ast.walk(lp))
+        feat = feat or (ascends and exists and root and nf)
+    r.check(feat, f"{fw.module.relpath}::{fw.qual}",
             "the workflow file is searched upwards from the invoking directory to the root", "find_workflow no longer searches the parent directories up to the root", fw.where)
     ctxc = idx.cls(f"{CORE}:Context")
     for prop, want in (("config_dir", "os.path.join(self.working_dir, '.gwf')"), ("logs_dir", "os.path.join(self.config_dir, 'logs')")):
@@ -213,13 +223,17 @@ def rule_name_validator(ctx, r):
     call = None
     for c in _calls(ivn.node):
         cn = idx.canon(c.func, ivn.module) if isinstance(c.func, (ast.Name, ast.Attribute)) else None
-        if cn in ("re.match", "re.fullmatch", "re.search"):
-            call = (c, cn)
-    if call is None or not (call[0].args and isinstance(call[0].args[0], ast.Constant)):
+        if cn in ("re.match", "re.fullmatch", "re.search") and c.args and isinstance(c.args[0], ast.Constant):
+            call = (c, cn, c.args[0].value)
+        elif isinstance(c.func, ast.Attribute) and c.func.attr in ("match", "fullmatch", "search") and isinstance(c.func.value, ast.Name):
+            # precompiled module-level pattern
+            cv = idx.globals.get(ivn.module.name, {}).get(c.func.value.id)
+            if isinstance(cv, ast.Call) and idx.canon(cv.func, ivn.module) == "re.compile" and cv.args and isinstance(cv.args[0], ast.Constant):
+                call = (c, "re." + c.func.attr, cv.args[0].value)
+    if call is None:
         r.violation(con, "is_valid_name does not validate with a constant regular expression", ivn.where)
         return
-    c, fn = call
-    pat = c.args[0].value
+    c, fn, pat = call
     first, rest, starts, ends, problems = _regex_facts(pat)
     anchored_start = fn in ("re.match", "re.fullmatch") or starts == "start"
     anchored_end = fn == "re.fullmatch" or ends == "\\Z"
@@ -236,15 +250,24 @@ def rule_name_validator(ctx, r):
     r.check(not problems and not bad_first and not bad_rest and first, con + "::alphabet", "first char [A-Za-z_], others [A-Za-z0-9._]",
             f"the name pattern {pat!r} admits characters outside the identifier-like alphabet (first: {bad_first}, other: {bad_rest}, {problems}): "
             "names become file names and shell/scheduler tokens", loc(c, ivn.module))
-    ret_ok = any(isinstance(n, ast.Return) and ast.unparse(n.value).endswith("is not None") for n in walk_no_nested(ivn.node))
-    r.check(ret_ok, con + "::result", "valid iff the pattern matched", "is_valid_name does not return whether the pattern matched", ivn.where)
+    # the function returns whether the pattern matched (folded on a finite witness set)
+    interp = PureInterp(ctx)
+    want = {"foo": True, "a.b_1": True, "_x": True, "foo\n": False, "1a": False, "a b": False, "a/b": False, "": False, "a-b": False}
+    got = {}
+    for s_ in want:
+        try:
+            got[s_] = interp.call(ivn, (s_,))
+        except (Raised, Unsupported) as exc:
+            got[s_] = f"<{exc}>"
+    diff = {k: got[k] for k in want if got[k] is not want[k]}
+    r.check(not diff, con + "::result", "valid iff the pattern matched the whole candidate", f"is_valid_name decides {diff} (expected {{k: want[k] for k in diff}})".replace("{k: want[k] for k in diff}", str({k: want[k] for k in diff})), ivn.where)
     # attached to Target.name
     tgt = idx.cls(f"{CORE}:Target")
     vm = None
     for m in tgt.methods.values():
         if "name.validator" in m.decorator_names():
             vm = m
-    ok = vm is not None and any(isinstance(n, ast.If) and "is_valid_name(" in ast.unparse(n.test) and isinstance(n.test, ast.UnaryOp) and any(
+    ok = vm is not None and any(isinstance(n, ast.If) and "is_valid_name(" in ast.unparse(n.test) and any(
         isinstance(s, ast.Raise) for s in n.body) for n in walk_no_nested(vm.node))
     r.check(ok, f"{tgt.module.relpath}::Target.name.validator", "Target rejects names is_valid_name refuses (GWFError at definition time)",
             "Target.name is not validated with is_valid_name when the target is defined", tgt.where)
